@@ -582,16 +582,32 @@ def _check_model_params(init_func, model_params):
             "Mesa's visualization requires the use of keyword arguments to ensure the parameters are passed to Solara correctly. Please ensure all model parameters are of form param=value"
         )
 
-    for name in model_parameters:
-        if (
-            model_parameters[name].default == inspect.Parameter.empty
-            and name not in model_params
-            and name != "self"
-            and name != "kwargs"
-        ):
+    has_var_keyword = any(
+        param.kind == inspect.Parameter.VAR_KEYWORD
+        for param in model_parameters.values()
+    )
+
+    for name, param in model_parameters.items():
+        if name == "self" or param.kind == inspect.Parameter.VAR_KEYWORD:
+            continue
+        if param.kind == inspect.Parameter.POSITIONAL_ONLY:
+            # can never be passed by keyword, so it has to have a default
+            if param.default == inspect.Parameter.empty:
+                raise ValueError(
+                    f"Positional-only model parameter cannot be passed by keyword: {name}"
+                )
+            continue
+        if param.default == inspect.Parameter.empty and name not in model_params:
             raise ValueError(f"Missing required model parameter: {name}")
+
+    keyword_kinds = (
+        inspect.Parameter.POSITIONAL_OR_KEYWORD,
+        inspect.Parameter.KEYWORD_ONLY,
+    )
     for name in model_params:
-        if name not in model_parameters and "kwargs" not in model_parameters:
+        param = model_parameters.get(name)
+        passable = param is not None and param.kind in keyword_kinds
+        if not passable and not has_var_keyword:
             raise ValueError(f"Invalid model parameter: {name}")
 
 
